@@ -147,3 +147,20 @@ Print Assumptions C10_type_name_identified.
 Theorem C10_deliveries_all_handled : forall q, drain false q = map expected_handling q.
 Proof. exact deliveries_all_handled. Qed.
 Print Assumptions C10_deliveries_all_handled.
+
+(* "never mistaken for a local schema problem", token level: the fields of EVERY failure satisfy the caller's
+   FailureConstraint whichever of them travel as VOCAB tokens (a connection with a negotiated vocabulary table sends a field
+   that is exactly a table word -- an exception message "error", "list", "none" ... -- as VOCAB).  The taster of a bounded
+   ByteStringConstraint is read from the source. *)
+Theorem C10_failure_fits_any_encoding : forall unsafe e vocab,
+  exists s, get_state unsafe e = Ok s /\ failure_constraint_ok_enc vocab s = true.
+Proof. exact failure_fits_any_encoding. Qed.
+Print Assumptions C10_failure_fits_any_encoding.
+
+(* "fails exactly that call", caller side: under every setting of the Tub's logging options, for targets with and without a
+   RemoteInterface, failing a pending request fires its Deferred exactly once and raises nothing (so nothing escapes into
+   dataReceived).  That the logged method name cannot raise for a missing interface name is read from the source. *)
+Theorem C10_fail_fires_once : forall logging known r, p_active r = true ->
+  fail_request logging known r = FailDone {| p_active := false; p_fired := S (p_fired r) |}.
+Proof. exact fail_fires_once. Qed.
+Print Assumptions C10_fail_fires_once.
